@@ -416,27 +416,33 @@ func OpenFile(name string, flag int, perm FileMode) (*File, error) {
 		w.nextFd++
 		return f, nil
 	}
-	// creating (or truncating) open: a mutating operation
-	if n != nil && flag&O_EXCL != 0 {
-		w.log(OpRec{Kind: "create", Path: name, Err: "EEXIST", Task: w.task()})
-		w.mu.Unlock()
-		return nil, pathErr("open", name, syscall.EEXIST)
-	}
-	if _, ln := w.resolve(name, false); ln != nil && flag&O_EXCL != 0 {
-		w.log(OpRec{Kind: "create", Path: name, Err: "EEXIST", Task: w.task()})
-		w.mu.Unlock()
-		return nil, pathErr("open", name, syscall.EEXIST)
-	}
-	if !w.dirOK(p) {
-		w.log(OpRec{Kind: "create", Path: name, Err: "ENOENT", Task: w.task()})
-		w.mu.Unlock()
-		return nil, pathErr("open", name, syscall.ENOENT)
-	}
+	// creating (or truncating) open: a mutating operation. The call is made -
+	// and is therefore a kill and fault point like any other - even when the
+	// kernel is going to refuse it (O_EXCL on an existing name).
 	fail, killAfter, _ := w.mutate("create")
 	if fail != nil {
 		w.log(OpRec{Kind: "create", Path: name, Err: fail.Error(), Mut: w.NMut, Task: w.task()})
 		w.mu.Unlock()
 		return nil, pathErr("open", name, fail)
+	}
+	refuse := func(e syscall.Errno, tag string) (*File, error) {
+		w.log(OpRec{Kind: "create", Path: name, Err: tag, Mut: w.NMut, Task: w.task()})
+		if killAfter {
+			w.die()
+			w.mu.Unlock()
+			panic(Killed{})
+		}
+		w.mu.Unlock()
+		return nil, pathErr("open", name, e)
+	}
+	if n != nil && flag&O_EXCL != 0 {
+		return refuse(syscall.EEXIST, "EEXIST")
+	}
+	if _, ln := w.resolve(name, false); ln != nil && flag&O_EXCL != 0 {
+		return refuse(syscall.EEXIST, "EEXIST")
+	}
+	if !w.dirOK(p) {
+		return refuse(syscall.ENOENT, "ENOENT")
 	}
 	if n == nil {
 		n = &Node{Mode: perm &^ w.Umask & ModePerm}
